@@ -3,7 +3,8 @@
 (* C16, implementation-shaped: the gateway context as two tasks and their  *)
 (* thread-pool file jobs, at the granularity the event loop interleaves.   *)
 (*                                                                         *)
-(*   main  : load -> start saver -> connect -> body -> disconnect ->       *)
+(*   main  : load -> start saver -> connect (succeeds | fails | hangs and  *)
+(*           the caller is cancelled) -> body -> disconnect ->             *)
 (*           stop saver -> final save (open, write, close) -> done         *)
 (*   saver : loop { save (open, write, close); wait 900 s or stop }        *)
 (*                                                                         *)
@@ -38,7 +39,7 @@ Tasks == {"main", "saver"}
 Init == /\ mpc = "start" /\ spc = "none" /\ stop = FALSE /\ reg = 0 /\ disk = 0
         /\ msnap = 0 /\ ssnap = 0 /\ job = [t \in Tasks |-> NoJob]
         /\ connected = FALSE /\ disconnects = 0 /\ exc = "none" /\ now = 0 /\ lastSave = -1 /\ deadline = -1
-        /\ cfail \in BOOLEAN /\ dfail \in BOOLEAN /\ braise \in BOOLEAN
+        /\ cfail \in {"no", "fail", "cancel"} /\ dfail \in BOOLEAN /\ braise \in BOOLEAN
         /\ nmut = 0 /\ nticks = 0 /\ hist = <<>>
 
 Issue(t, op) == job' = [job EXCEPT ![t] = [st |-> "queued", op |-> op]]
@@ -48,12 +49,21 @@ Issue(t, op) == job' = [job EXCEPT ![t] = [st |-> "queued", op |-> op]]
 MStart == /\ mpc = "start" /\ spc' = "created" /\ mpc' = "connect"
           /\ UNCHANGED <<stop, reg, disk, msnap, ssnap, job, connected, disconnects, exc, now, lastSave, deadline, cfail, dfail, braise, nmut, nticks, hist>>
 MConnect == /\ mpc = "connect"
-            /\ IF cfail
-               THEN /\ exc' = "Transport"
-                    /\ mpc' = IF GuardConnect THEN "stop" ELSE "failed"
-                    /\ UNCHANGED connected
-               ELSE connected' = TRUE /\ mpc' = "body" /\ UNCHANGED exc
+            /\ CASE cfail = "fail" ->
+                       /\ exc' = "Transport"
+                       /\ mpc' = IF GuardConnect THEN "stop" ELSE "failed"
+                       /\ UNCHANGED connected
+                 [] cfail = "cancel" ->        \* the connection attempt hangs; the caller gives up later (MCancel)
+                       /\ mpc' = "connecting" /\ UNCHANGED <<exc, connected>>
+                 [] OTHER -> connected' = TRUE /\ mpc' = "body" /\ UNCHANGED exc
             /\ UNCHANGED <<spc, stop, reg, disk, msnap, ssnap, job, disconnects, now, lastSave, deadline, cfail, dfail, braise, nmut, nticks, hist>>
+(* the caller is cancelled (a timeout around entering the context) while connect is pending; the saver, *)
+(* created before connect, may be anywhere                                                              *)
+MCancel == /\ mpc = "connecting"
+           /\ exc' = "Cancelled"
+           /\ mpc' = IF GuardConnect THEN "stop" ELSE "failed"
+           /\ hist' = Append(hist, <<"cancel">>)
+           /\ UNCHANGED <<spc, stop, reg, disk, msnap, ssnap, job, connected, disconnects, now, lastSave, deadline, cfail, dfail, braise, nmut, nticks>>
 Mutate == /\ mpc = "body" /\ nmut < MaxMut
           /\ reg' = reg + 1 /\ nmut' = nmut + 1 /\ hist' = Append(hist, <<"mutate">>)
           /\ UNCHANGED <<mpc, spc, stop, disk, msnap, ssnap, job, connected, disconnects, exc, now, lastSave, deadline, cfail, dfail, braise, nticks>>
@@ -122,7 +132,7 @@ Tick == /\ mpc = "body" /\ spc = "waiting" /\ now < deadline /\ nticks < MaxTick
         /\ now' = deadline /\ nticks' = nticks + 1 /\ hist' = Append(hist, <<"tick">>)
         /\ UNCHANGED <<mpc, spc, stop, reg, disk, msnap, ssnap, job, connected, disconnects, exc, lastSave, deadline, cfail, dfail, braise, nmut>>
 
-Next == MStart \/ MConnect \/ Mutate \/ BodyFinish \/ MDisconnect \/ MStop \/ MAwait \/ MSaveBegin \/ SRun \/ SWake \/ Tick
+Next == MStart \/ MConnect \/ MCancel \/ Mutate \/ BodyFinish \/ MDisconnect \/ MStop \/ MAwait \/ MSaveBegin \/ SRun \/ SWake \/ Tick
         \/ \E t \in Tasks, m \in {"full", "run", "deliver"} : JobStep(t, m)
 Spec == Init /\ [][Next]_vars
 FairSpec == Spec /\ WF_vars(Next)
@@ -131,11 +141,12 @@ FairSpec == Spec /\ WF_vars(Next)
 (* Reference properties of C16 *)
 Exited == mpc \in {"done", "failed"}
 Quiet  == \A t \in Tasks : job[t] = NoJob
-ExitSavesFinalRegistry == (Exited /\ Quiet /\ ~cfail) => disk = reg
+ExitSavesFinalRegistry == (Exited /\ Quiet /\ cfail = "no") => disk = reg
 ExitDisconnects        == (Exited /\ connected) => disconnects = 1
 NoTaskLeft             == (Exited /\ Quiet) => spc \in {"finished", "none"}
-ExceptionIsTheBodys    == (Exited /\ ~cfail) => exc \in {"none", "Body", "Transport"} /\ (exc = "Transport" => dfail)
-FailedConnectPropagates == (Exited /\ cfail) => exc = "Transport"
+ExceptionIsTheBodys    == (Exited /\ cfail = "no") => exc \in {"none", "Body", "Transport"} /\ (exc = "Transport" => dfail)
+FailedConnectPropagates == /\ (Exited /\ cfail = "fail") => exc = "Transport"
+                           /\ (Exited /\ cfail = "cancel") => exc = "Cancelled"
 Cadence == (mpc = "body" /\ Quiet /\ spc = "waiting") => now - lastSave <= Interval
 Terminates == <>(Exited /\ Quiet)
 
